@@ -432,6 +432,14 @@ def r6(ctx):
     # (b) split feature states keep every tag
     f = ctx.fn(COUNTTABLE, 'assignReads')
     sloops = [l for l in walk_no_nested(f) if isinstance(l, ast.For) and 'product' in src(l.iter)]
+    if not sloops:
+        # the increments may be built by a helper of the module that assignReads calls (a generator materialised with list(..))
+        mod_ = ctx.ix.module(COUNTTABLE)
+        for c_ in walk_no_nested(f):
+            if isinstance(c_, ast.Call) and isinstance(c_.func, ast.Name) and c_.func.id in mod_.defs and c_.func.id != 'assignReads':
+                for h_ in mod_.defs[c_.func.id]:
+                    if isinstance(h_, ast.FunctionDef):
+                        sloops += [l for l in walk_no_nested(h_) if isinstance(l, ast.For) and 'product' in src(l.iter)]
     if len(sloops) != 1:
         ctx.emit('C10-R6', False, COUNTTABLE, f, 'loop over the split feature states not found', key='split-state-features', undecided=True)
     else:
